@@ -354,13 +354,17 @@ func runC09(c *mc.Ctx) {
 		}
 		single = append(single, c09History{Cfg: cfg, Ops: []string{"addhash"}})
 	}
-	if c.Quick() {
-		// 36000-byte filters only here in the quick tier
+	// large filters (bit index beyond 16 bits; sizes around the 8192-byte = 65536-bit boundary)
+	for _, sz := range []int{4096, 8191, 8192, 8193, 16384, 20001, 35999, 36000} {
+		if c.Thorough() && sz == 36000 {
+			continue // already in cfgs
+		}
 		for _, k := range []uint32{1, 50} {
-			cfg := c09Config{Bytes: 36000, HashFuncs: k, Tweak: 0xffffffff, Flags: 1}
+			cfg := c09Config{Bytes: sz, HashFuncs: k, Tweak: 0xffffffff, Flags: 1}
 			for _, it := range c09ItemNames {
 				single = append(single, c09History{Cfg: cfg, Ops: []string{"add:" + it}})
 			}
+			single = append(single, c09History{Cfg: cfg, Ops: []string{"addop:oF", "addhash", "reload", "add:33h"}})
 		}
 	}
 	c.Space("single insertions: config x item", int64(len(single)))
